@@ -214,12 +214,108 @@ fn run_one(cfg: &Cfg) -> (Ranges, Arc<Sched>) {
     (r, sched)
 }
 
+// ---- BitMap under concurrency (C19): line "1000000 capacity nthreads (nops (op seq)*)* seed strategy budget [replay...]" ----
+// op 0 = set, 1 = unset. Every thread runs its operations on ONE shared BitMap under the scheduler; afterwards the main thread
+// reads every residue. Output: RUN / E lines as usual (kind 30 = one BitMap call begins: a = op, b = sequence; kind 31 = it
+// returned), then "BITS b0 b1 ..." (is_set of the residues 0..min(capacity,256)-1).
+#[derive(Clone)]
+struct BmCfg { cap: usize, progs: Vec<Vec<(u8, u64)>>, seed: u64, strategy: u8, budget: usize, replay: Vec<usize> }
+
+fn parse_bm(v: &[u64]) -> BmCfg {
+    let mut p = 1;
+    let mut nx = || { let x = v[p]; p += 1; x };
+    let cap = nx() as usize; let nt = nx() as usize;
+    let mut progs = Vec::new();
+    for _ in 0..nt { let n = nx() as usize; progs.push((0..n).map(|_| { let o = nx() as u8; let q = nx(); (o, q) }).collect()); }
+    let seed = nx(); let strategy = nx() as u8; let budget = nx() as usize;
+    let mut replay = Vec::new();
+    while p < v.len() { replay.push(v[p] as usize); p += 1; }
+    BmCfg { cap, progs, seed, strategy, budget, replay }
+}
+
+fn run_bm(cfg: &BmCfg) -> (Vec<u8>, Arc<Sched>) {
+    use std::num::NonZeroUsize;
+    let nt = cfg.progs.len();
+    let sched = Sched::new(1 + nt, cfg.seed, cfg.strategy, cfg.budget, cfg.replay.clone(), false);
+    install_hook(sched.clone());
+    *GLOBAL_SCHED.lock().unwrap() = Some(sched.clone());
+    let bm = Arc::new(BitMap::new(NonZeroUsize::new(cfg.cap).unwrap()));
+    sched.main_start(0);
+    let mut ths = Vec::new(); let mut tids = Vec::new();
+    for (w, prog) in cfg.progs.iter().enumerate() {
+        let tid = 1 + w; tids.push(tid);
+        let (s, b, pr) = (sched.clone(), bm.clone(), prog.clone());
+        ths.push(std::thread::spawn(move || {
+            s.thread_start(tid);
+            let s2 = s.clone();
+            let body = std::panic::AssertUnwindSafe(move || {
+                for (o, q) in pr.iter() {
+                    s2.mark(30, w, *o as u64, *q, 0);
+                    if *o == 0 { b.set(*q) } else { b.unset(*q) }
+                    s2.mark(31, w, *o as u64, *q, 0);
+                }
+            });
+            if std::panic::catch_unwind(body).is_err() { s.abort(5); return; }
+            s.thread_end();
+        }));
+    }
+    sched.await_registered(&tids);
+    sched.join_wait(tids);
+    for t in ths.drain(..) { let _ = t.join(); }
+    let n = cfg.cap.min(256);
+    let bits: Vec<u8> = (0..n).map(|r| bm.is_set(r as u64) as u8).collect();
+    sched.thread_end();
+    (bits, sched)
+}
+
+fn main_bm(v: &[u64]) {
+    let cfg = parse_bm(v);
+    let cfg2 = cfg.clone();
+    let (tx, rx) = std::sync::mpsc::channel();
+    std::thread::spawn(move || {
+        let res = std::panic::catch_unwind(std::panic::AssertUnwindSafe(|| run_bm(&cfg2)));
+        match res {
+            Ok((b, sched)) => { let _ = tx.send((Some(b), sched)); }
+            Err(_) => { if let Some(s) = GLOBAL_SCHED.lock().unwrap().clone() { s.abort(5); } }
+        }
+    });
+    let (bits, sched) = loop {
+        if let Ok(x) = rx.recv_timeout(std::time::Duration::from_millis(20)) { break x; }
+        if let Some(s) = GLOBAL_SCHED.lock().unwrap().clone() {
+            let o = s.st.lock().unwrap().outcome;
+            if o >= 2 { break (None, s); }
+        }
+    };
+    let st = sched.st.lock().unwrap();
+    let stdout = io::stdout();
+    let mut out = io::BufWriter::new(stdout.lock());
+    writeln!(out, "RUN {} {} {}", st.outcome, st.steps, st.trace.len()).unwrap();
+    for e in st.trace.iter() {
+        let c = if (1..=6).contains(&e.kind) { 9 } else { 0 };
+        writeln!(out, "E {} {} {} {} {} {} {} {} {} {}", e.tid, e.kind, c, e.addr, e.ord, e.ord2, e.a, e.b, e.observed, e.ok as u8).unwrap();
+    }
+    let s: Vec<String> = st.schedule.iter().map(|x| x.to_string()).collect();
+    writeln!(out, "SCHED {}", s.join(" ")).unwrap();
+    if let Some(b) = bits { let bs: Vec<String> = b.iter().map(|x| x.to_string()).collect(); writeln!(out, "BITS {}", bs.join(" ")).unwrap(); }
+    writeln!(out, "END").unwrap();
+    out.flush().unwrap();
+    let aborted = st.outcome >= 2;
+    drop(st);
+    remove_hook();
+    if aborted { std::process::exit(3); }
+}
+
 fn main() {
     let stdin = io::stdin();
     let stdout = io::stdout();
     for line in stdin.lock().lines() {
         let line = line.unwrap();
         if line.trim().is_empty() { continue; }
+        if line.starts_with("1000000 ") {
+            let v: Vec<u64> = line.split_ascii_whitespace().map(|t| t.parse().unwrap()).collect();
+            main_bm(&v);
+            continue;
+        }
         let cfg = parse(&line);
         // the pipeline runs in its own thread so that an aborted run (deadlock / budget) can be abandoned
         let cfg2 = cfg.clone();
